@@ -28,6 +28,7 @@ def build(chk):
     for q in pmod.funcs:
         if (PS, q) not in funcs:
             funcs.append((PS, q))
+    flows = {}
     for rel, q in funcs:
         m = frontend.load(rel)
         if q not in m.funcs:
@@ -40,7 +41,7 @@ def build(chk):
         chk.add("%s.no-hidden-state%s" % (q, ("[" + "; ".join(h.what for h in s.hidden)[:140] + "]") if s.hidden else ""), [], z3.BoolVal(not s.hidden), fname,
                 "effects-analysis", "reproducible", kind="frame")
         for k, site in enumerate(s.sites):
-            glob = [r for r in site.roots if r[0] == "G"]
+            glob = [r for r in site.roots if r[0] in ("G", "C")]
             chk.add("%s.no-module-state-write.%d[line %d: %s]" % (q, k, site.lineno, site.what[:60]), [], z3.BoolVal(not glob), fname, "effects-analysis", "isolation", kind="frame")
         for u in s.undecided:
             chk.unsupported.append((fname, "effects analysis undecided at line %d: %s" % (u.lineno, u.what)))
@@ -49,8 +50,13 @@ def build(chk):
         mut = an.mutables(m)
         reads = sorted({n.id for n in ast.walk(m.funcs[q]) if isinstance(n, ast.Name) and n.id in mut})
         chk.add("%s.reads-no-module-level-mutable%s" % (q, reads or ""), [], z3.BoolVal(not reads), fname, "effects-analysis", "isolation", kind="frame")
-        for k, site in enumerate(seedflow.SeedFlow(m, q).run()):
+        fl = seedflow.SeedFlow(m, q)
+        for k, site in enumerate(fl.run()):
             chk.add("%s.seed-flow.%d[line %d: %s]" % (q, k, site.lineno, site.what[:110]), [], z3.BoolVal(bool(site.ok)), fname, "seed-flow analysis", "reproducible", kind="frame")
+        flows.setdefault(rel, {})[q] = fl
+    for rel, fls in flows.items():
+        for k, site in enumerate(seedflow.call_site_obligations(fls)):
+            chk.add("call-site.seed-flow.%d[%s line %d: %s]" % (k, site.func.split(":")[-1], site.lineno, site.what[:110]), [], z3.BoolVal(bool(site.ok)), site.func, "seed-flow analysis (call sites)", "reproducible", kind="frame")
     chk.assumptions_used.update(["A-NP"])
     chk.notes.append("library contract: numpy.random.default_rng(int) is a deterministic function of the int, default_rng(Generator) returns the same object, Generator.normal mutates only its receiver; FFT and numba kernels are deterministic")
     chk.notes.append("with these frame clauses the returned screen and every later row are terms over (arguments, seed) only, so nothing another call or instance can touch occurs in them")
